@@ -536,3 +536,10 @@ def main(ctx):
                            'R: simulated behaviours driven through real Buses over zip pickle / csv / tsv and sqlite stores with the cache state compared after each step; '
                            'V: random histories (1-8 labels, max_persist None / 1 / 2 / 3 / 4 / n, a third of them starting with a late label loaded first and a slice spanning it, 8 selection routes, get(), items() / values, 14 status reads, 7 derivation routes, file touched newer / older, rewritten, deleted) validated statefully; write / reopen round trips of varied Frames per format',
                       trusted=['TLC 1.8 + CommunityModules', 'os.utime / os.path.getmtime', 'assumption: a modified file never regains exactly the mtime the Store recorded'])
+
+
+def replay(rec):
+    import json
+    print('a Bus history cannot be re-run from one event: the record holds the call, the cache state before / after and the expected transition; re-run ./check C17 with the same VERIF_SEED to regenerate the history')
+    print(json.dumps({k: rec.get(k) for k in ('property', 'leg', 'clause', 'what', 'case', 'expected', 'actual')}, indent=1, default=str)[:6000])
+    return 0
